@@ -108,3 +108,26 @@ class RecordingShuffle:
 
 
 FACTORIES['recording_shuffle'] = lambda d: RecordingShuffle(None if d['table'] is None else torch.tensor(d['table'], dtype=torch.int8))
+
+
+class AttrObject:
+    """a plain object carrying attributes (e.g. an nn.Module's captured activations) for replays"""
+
+    def __init__(self, cls='object', **attrs):
+        self._cls = cls
+        self.__dict__.update(attrs)
+
+    def attrs(self):
+        return {k: v for k, v in self.__dict__.items() if k != '_cls'}
+
+    def to_json(self):
+        from .concrete import to_json
+        return {'__factory__': 'attr_object', 'cls': self._cls, 'attrs': {k: to_json(v) for k, v in self.attrs().items()}}
+
+
+def _attr_object(d):
+    from .concrete import from_json
+    return AttrObject(d['cls'], **{k: from_json(v) for k, v in d['attrs'].items()})
+
+
+FACTORIES['attr_object'] = _attr_object
